@@ -66,7 +66,7 @@ def r1_once(ctx):
                   key(f, 'output'), 'the last attenuation is not the output connector loss (con_out)', vkey(a2)[:160])
         at = a1.single_atom() if isinstance(a1, Rat) else None
         ok = at is not None and at.kind == 'fn' and at.name == 'sub' and 'calculate_stimulated_raman_scattering' in vkey(at.args[0]) \
-            and "'loss_profile'" in vkey(at.args[0]) and at.args[1].replace(' ', '').endswith(',-1)')
+            and vkey(at.args[0]).endswith('.loss_profile') and at.args[1].replace(' ', '').endswith(',-1)')
         ctx.check('R1.once', f'{site(f, seq[1].node)} span loss', ok, key(f, 'span'),
                   'the span attenuation is not the last z-column of the loss profile computed by the Raman solver for this '
                   'fibre and spectrum', vkey(a1)[:200])
